@@ -398,8 +398,23 @@ impl Workload for DamageWorkload {
                 let joined: Vec<u8> = samples[0].records.iter().flat_map(|x| x.1.clone()).collect();
                 dir.write("ref.fa", wrap_fasta("chr1", &joined, 60).as_bytes());
                 let first_name = content.2[0].clone();
-                for _ in 0..*count {
-                    let (data, what) = if rng.chance(40) {
+                for img_no in 0..*count {
+                    // the first images of every case are the likeliest leftovers of an interrupted
+                    // overwrite and damage to the very first bytes (the stream identifier)
+                    let (data, what) = if img_no == 0 {
+                        fault("truncate");
+                        (vec![], "prefix of length 0".to_string())
+                    } else if img_no == 1 {
+                        let n = rng.range(1, 9);
+                        fault("truncate");
+                        (orig[..n].to_vec(), format!("prefix of length {n}"))
+                    } else if img_no == 2 {
+                        let (n, b) = (rng.below(10), rng.below(8));
+                        let mut d = orig.clone();
+                        d[n] ^= 1 << b;
+                        fault("bitflip");
+                        (d, format!("flip of bit {b} of byte {n} ({})", reg[n]))
+                    } else if rng.chance(40) {
                         let n = if rng.chance(30) { *rng.pick(&frame_ends(&orig)) % orig.len() } else { rng.below(orig.len()) };
                         fault("truncate");
                         (orig[..n].to_vec(), format!("prefix of length {n}"))
@@ -476,8 +491,10 @@ impl Workload for DamageWorkload {
                     return Ok(out);
                 }
                 let full = dir.read(target).unwrap_or_default();
-                for _ in 0..*count {
-                    let n = if rng.chance(25) { *rng.pick(&frame_ends(&full)) as u64 % full.len().max(1) as u64 } else { rng.below(full.len().max(1)) as u64 };
+                for crash_no in 0..*count {
+                    let n = if crash_no == 0 {
+                        0 // killed right after the file was re-created
+                    } else if rng.chance(25) { *rng.pick(&frame_ends(&full)) as u64 % full.len().max(1) as u64 } else { rng.below(full.len().max(1)) as u64 };
                     dir.write("work.skf", &orig);
                     dir.write("good.skf", &good);
                     if target != "work.skf" {
